@@ -91,5 +91,8 @@ void h_run(void) {
     if (counter[m] != expected[m]) sim_violation("C03-lost-update", "mutex %d: %ld critical sections ran but the counter they increment reads %ld", m, expected[m], counter[m]);
     if (mtx[m].counter != 1) sim_violation("C03-state-at-rest", "mutex %d: counter %d after all fibers finished (1 = free)", m, (int)mtx[m].counter);
   }
+  /* teardown: the objects go away, nothing of the runtime may touch them afterwards (memory oracle) */
+  for (int m = 0; m < nmtx; m++) fiber_mutex_destroy(&mtx[m]);
+  free(mtx);
   h_fiber_end();
 }
